@@ -40,6 +40,9 @@ type c02Params struct {
 	Pairs   bool    `json:"pairs,omitempty"`
 	// LinesOnly: only the whole-line faults (every protocol line repeated / lost); directory transfers in the quick tier
 	LinesOnly bool `json:"lines_only,omitempty"`
+	// Fields: message-level faults only — every protocol line's encoded payload cut to a well-formed encoding of
+	// nothing / of its first half; and each such cut of a digest line (#MD5) together with each byte flip of the site family
+	Fields bool `json:"fields,omitempty"`
 }
 
 // transcriptOf returns the unfaulted byte streams of the transfer (in-band wire or tunnel connection).
@@ -132,6 +135,12 @@ func c02Oracle(w *world, r *worldResult) (violation, outcome string) {
 		}
 		for _, n := range names {
 			if _, ok := r.Dst[n]; !ok {
+				// The sending side knows the destination name only from the receiver's reply, which no checksum covers
+				// (message-level faults cut it to a shorter well-formed name). The statement is about content: when what
+				// is at the destination is, file for file, the content of the source, a misreported name is not a C02 violation.
+				if senderSide := (who == "the client") == (w.p.Dir == "up"); senderSide && sameFileContents(src, r.Dst) {
+					continue
+				}
 				return fmt.Sprintf("%s reports %q as saved but it is not at the destination (%v)", who, n, keysOf(r.Dst))
 			}
 			// the source entry this name stands for: same base name, possibly with a .N suffix
@@ -178,6 +187,27 @@ func c02Oracle(w *world, r *worldResult) (violation, outcome string) {
 		}
 	}
 	return "", outcome
+}
+
+// sameFileContents: the two trees hold the same multiset of file contents (names and directories aside).
+func sameFileContents(a, b map[string]string) bool {
+	cnt := map[string]int{}
+	for _, v := range a {
+		if strings.HasPrefix(v, "file:") {
+			cnt[v]++
+		}
+	}
+	for _, v := range b {
+		if strings.HasPrefix(v, "file:") {
+			cnt[v]--
+		}
+	}
+	for _, c := range cnt {
+		if c != 0 {
+			return false
+		}
+	}
+	return true
 }
 
 func c02Run(j vs.Job) *vs.JobResult {
@@ -266,7 +296,41 @@ func c02Run(j vs.Job) *vs.JobResult {
 		return true
 	}
 	deadline := time.Unix(j.Deadline, 0)
-	if !p.Pairs {
+	if p.Fields {
+		streams := map[string][]byte{"c2s": c2s, "s2c": s2c}
+		nCut, nCutPairs := 0, 0
+	fields:
+		for _, f := range fields {
+			for _, kind := range []string{"cut0", "cuthalf"} {
+				if stableShard(p.NShards, f.dir, f.off, kind) == p.Shard {
+					nCut++
+					if !run([]wFault{{f.dir, f.off, kind}}) {
+						return r
+					}
+				}
+				if !bytes.HasPrefix(streams[f.dir][f.off:], []byte("#MD5:")) {
+					continue
+				}
+				for _, s := range sites {
+					if s.dir == f.dir && s.off >= f.off {
+						continue // the flip is a fault of the data that the digest line covers, i.e. before it
+					}
+					if stableShard(p.NShards, f.dir, f.off, kind, s.dir, s.off) == p.Shard {
+						nCutPairs++
+						if !run([]wFault{{s.dir, s.off, "flip0"}, {f.dir, f.off, kind}}) {
+							return r
+						}
+					}
+				}
+				if j.Deadline > 0 && time.Now().After(deadline) {
+					r.Capped = "deadline"
+					break fields
+				}
+			}
+		}
+		r.Max("field_cuts_max_per_shard", float64(nCut))
+		r.Max("digest_cut_x_flip_pairs_max_per_shard", float64(nCutPairs))
+	} else if !p.Pairs {
 		for _, s := range sites {
 			if p.LinesOnly {
 				break
@@ -325,7 +389,7 @@ func init() {
 		ID:    "C02",
 		Level: "fault_enumeration",
 		Rule: "single faults {flip bit 0, flip bit 5, delete, duplicate, insert LF, insert 'A', truncate from here} at every offset of either direction outside DATA payloads and, inside payloads, at the first/last 24 bytes and every 61st byte; " +
-			"every protocol line repeated and lost as a whole; thorough adds pairs of faults on the second byte of every pair of protocol lines; per configuration; non-trivial = the faulted run did not simply succeed on both sides",
+			"every protocol line repeated and lost as a whole; every protocol line's encoded payload cut to a well-formed encoding of nothing / of its first half, and every such cut of a digest line together with every flip of the site family before it (5 configurations, 3 of them binary and uncompressed); thorough adds pairs of faults on the second byte of every pair of protocol lines; per configuration; non-trivial = the faulted run did not simply succeed on both sides",
 		Assumptions: []string{"same trusted base as C01", "a hang or a crash caused by a fault is counted in the outcomes here and decided by C11 / C12", "content saved under another name is not a C02 violation (the statement is about content)"},
 		QuickBudget: 110, ThoroughBudget: 1200, DiedIsViolation: false,
 		Jobs: func(tier string) []vs.Job {
@@ -364,6 +428,22 @@ func init() {
 				{Dir: "up", Tree: "dir", Directory: true, Protocol: 3, Timeout: 3},
 			} {
 				jobs = append(jobs, vs.MkJob("lines "+w.String(), c02Params{W: w, LinesOnly: true, NShards: 1}))
+			}
+			// message-level faults (payload cut to a well-formed shorter one), and digest cuts paired with data flips
+			for _, c := range []c02Params{
+				// binary and uncompressed: a flipped payload byte is a different, still decodable, content byte
+				{W: wParams{Dir: "down", Tree: "one:R:21000", Binary: true, Tunnel: true, Compress: 2, Timeout: 3}},
+				{W: wParams{Dir: "up", Tree: "one:E:3000", Binary: true, Compress: 2, Timeout: 3}},
+				{W: wParams{Dir: "up", Tree: "one:E:3000", Binary: true, Compress: 2, Protocol: 2, Timeout: 3}},
+				{W: wParams{Dir: "up", Tree: "small3", Timeout: 3}},
+				{W: wParams{Dir: "down", Tree: "one:E:3000", Protocol: 2, Timeout: 3}},
+			} {
+				c.Fields = true
+				n := 4
+				for s := 0; s < n; s++ {
+					c.Shard, c.NShards = s, n
+					jobs = append(jobs, vs.MkJob(fmt.Sprintf("fields %s %d/%d", c.W.String(), s, n), c))
+				}
 			}
 			if tier == "thorough" {
 				for _, c := range cfgs[:3] {
